@@ -51,6 +51,7 @@ func (p *Program) readOnlyFn(fn *ssa.Function) bool {
 	// collect everything reachable that is not decided yet
 	type node struct {
 		bad     bool
+		cap     bool // writes only into variables captured from an enclosing activation
 		why     string
 		callees []*ssa.Function
 	}
@@ -64,7 +65,7 @@ func (p *Program) readOnlyFn(fn *ssa.Function) bool {
 		n := &node{}
 		nodes[f] = n
 		order = append(order, f)
-		n.bad, n.why, n.callees = p.roLocal(f)
+		n.bad, n.cap, n.why, n.callees = p.roLocal(f)
 		for _, c := range n.callees {
 			if len(c.Blocks) == 0 || !p.isFirstParty(c) {
 				n.bad = true
@@ -91,6 +92,10 @@ func (p *Program) readOnlyFn(fn *ssa.Function) bool {
 				} else if cn := nodes[c]; cn != nil && cn.bad {
 					cb, cw = true, cn.why
 				}
+				if !n.cap && (p.roMemo[c] == 4 || nodes[c] != nil && nodes[c].cap) {
+					n.cap = true
+					changed = true
+				}
 				if cb {
 					n.bad = true
 					n.why = "through " + fnName(c) + ": " + cw
@@ -101,18 +106,46 @@ func (p *Program) readOnlyFn(fn *ssa.Function) bool {
 		}
 	}
 	for _, f := range order {
-		if nodes[f].bad {
+		switch {
+		case nodes[f].bad:
 			p.roMemo[f] = 2
 			p.roWhy[f] = nodes[f].why
-		} else {
+		case nodes[f].cap:
+			p.roMemo[f] = 4
+		default:
 			p.roMemo[f] = 1
 		}
 	}
 	return p.roMemo[fn] == 1
 }
 
+// writesNothingOutside: like readOnlyFn, but writes into variables captured from an
+// enclosing activation are allowed (a printer assembling its text through a local closure):
+// nothing that outlives the outermost activation is written.
+func (p *Program) writesNothingOutside(fn *ssa.Function) bool {
+	p.readOnlyFn(fn)
+	return p.roMemo[fn] == 1 || p.roMemo[fn] == 4
+}
+
+// capturedLocal: v is (the address held in) a free variable bound to a local variable of an
+// enclosing activation.
+func capturedLocal(v ssa.Value) bool {
+	for d := 0; d < 4; d++ {
+		fv, ok := v.(*ssa.FreeVar)
+		if !ok {
+			return false
+		}
+		b := freeVarBinding(fv)
+		if _, isAlloc := b.(*ssa.Alloc); isAlloc {
+			return true
+		}
+		v = b
+	}
+	return false
+}
+
 // roLocal: the effects fn has by itself, and the first-party functions it may call.
-func (p *Program) roLocal(fn *ssa.Function) (bad bool, why string, callees []*ssa.Function) {
+func (p *Program) roLocal(fn *ssa.Function) (bad, capw bool, why string, callees []*ssa.Function) {
 	note := func(w string) {
 		bad = true
 		if why == "" {
@@ -124,7 +157,9 @@ func (p *Program) roLocal(fn *ssa.Function) (bad bool, why string, callees []*ss
 			switch x := in.(type) {
 			case *ssa.Store:
 				// a store into a variable of this activation is invisible to the caller
-				if _, local := x.Addr.(*ssa.Alloc); !local {
+				if capturedLocal(x.Addr) {
+					capw = true
+				} else if _, local := x.Addr.(*ssa.Alloc); !local {
 					note(fmt.Sprintf("store %s at %s", displayKey(x.Addr), p.instrPos(x)))
 				}
 			case *ssa.MapUpdate:
@@ -184,6 +219,10 @@ func (p *Program) roLocal(fn *ssa.Function) (bad bool, why string, callees []*ss
 				if !p.isFirstParty(sc) {
 					// library code: its effects are confined to what it is handed
 					for _, a := range com.Args {
+						if _, isPtr := a.Type().Underlying().(*types.Pointer); isPtr && capturedLocal(a) {
+							capw = true
+							continue
+						}
 						if !p.confinedArg(a) {
 							note(fmt.Sprintf("%s is handed %s at %s and may write through it", sc.String(), displayKey(a), p.instrPos(x)))
 						}
